@@ -588,7 +588,7 @@ def selftest_for(prop, repo):
                     ss.verify()
                 except Rejected as r:
                     raise Undecided("rejected: " + r.msgs)
-                f = failed_for(ss, prop)
+                f = [x for x in failed_for(ss, prop) if not x.get("hint")]      # hint-only failures are not a verdict (see decide)
                 und = None
                 if not f:
                     import kani_engine
